@@ -58,6 +58,15 @@ minute, say) around user evaluators or around a whole validation is not flagged 
 """
 
 
+def time_unit(scenario):
+    """
+    the unit of this scenario. Scenarios of single evaluations (C12) keep the millisecond: a single evaluator call may
+    take up to ten virtual seconds there (an evaluation is at most three sequential stages), which is what makes a
+    per-call time limit that replaces late answers by a value show itself
+    """
+    return scenario.get("time_unit", TIME_UNIT)
+
+
 class InjectedFault(RuntimeError):
     """raised by a peer on behalf of the fault injector (sibling failure)"""
 
@@ -201,7 +210,7 @@ class Sim:
                     await asyncio.sleep(0)
             elif action[0] == "s":
                 self.yielding_calls += 1
-                await asyncio.sleep(action[1] * TIME_UNIT)
+                await asyncio.sleep(action[1] * time_unit(self.scenario))
             self.check_fault(kind, key)
         finally:
             del self._inflight[seq]
@@ -555,7 +564,7 @@ def run_requests(scenario, do_op, step_cap=200_000):
         PEER_SET.set(int(request.get("peer_set", 0)))
         try:
             if request.get("start"):
-                await asyncio.sleep(request["start"] * TIME_UNIT)
+                await asyncio.sleep(request["start"] * time_unit(scenario))
             sim.event("begin", rid)
             result = await do_op(sim, request)
             outcome = {"ok": canon(result)}
@@ -606,7 +615,7 @@ def run_requests(scenario, do_op, step_cap=200_000):
                             sim.count_fault("F3_sibling_cancel")
                             _task.cancel()
 
-                    loop.call_at(float(fault["at"]) * TIME_UNIT, cancel)
+                    loop.call_at(float(fault["at"]) * time_unit(scenario), cancel)
             await asyncio.gather(*tasks, return_exceptions=True)
             sim.sim_time += loop.time()
             sim.steps += loop.steps
